@@ -397,7 +397,7 @@ func verifHarness_C14(n, mode int) {
 
 // literal templates: prefix x quote x body of k symbolic bytes (escapes included by the alphabet) x follower
 func verifHarness_C14_lit(k, prefix, quote int) {
-	pre := []string{"", "r", "B", "rb", "bR", "Br"}[prefix]
+	pre := []string{"", "r", "B", "rb", "bR", "Br", "rR", "BB", "rbr"}[prefix]
 	q := []string{"'", "\"", "'''", "\"\"\"", "`"}[quote]
 	if quote == 4 && prefix != 0 {
 		return
